@@ -27,6 +27,8 @@ type Solver struct {
 	nUnknown int
 	dur      time.Duration
 	log      io.Writer
+	mirror   *Solver // second solver receiving the same declarations and assertions (cross-check)
+	nCross   int
 }
 
 type solverError struct{ msg string }
@@ -59,6 +61,9 @@ func newSolver(kind string) *Solver {
 }
 
 func (s *Solver) close() {
+	if s.mirror != nil {
+		s.mirror.close()
+	}
 	s.in.Close()
 	s.cmd.Process.Kill()
 	s.cmd.Wait()
@@ -69,9 +74,32 @@ func (s *Solver) send(x string) {
 		io.WriteString(s.log, x+"\n")
 	}
 	io.WriteString(s.in, x+"\n")
+	if s.mirror != nil && !strings.HasPrefix(x, "(set-option") && !strings.HasPrefix(x, "(reset") && !strings.HasPrefix(x, "(check-sat") && !strings.HasPrefix(x, "(get-value") && !strings.HasPrefix(x, "(set-logic") {
+		s.mirror.send(x)
+	}
+}
+
+// crossCheck asks the mirror solver the same question (the push/assert/pop
+// framing has already been mirrored by send) and compares the verdicts.
+func (s *Solver) crossCheck(res string) {
+	if s.mirror == nil {
+		return
+	}
+	s.mirror.send("(check-sat)")
+	other := s.mirror.readLine()
+	s.nCross++
+	if other != "sat" && other != "unsat" {
+		other = "unknown"
+	}
+	if other != res && other != "unknown" && res != "unknown" {
+		panic(solverError{"solvers disagree: " + s.kind + " says " + res + ", " + s.mirror.kind + " says " + other})
+	}
 }
 
 func (s *Solver) reset() {
+	if s.mirror != nil {
+		s.mirror.reset()
+	}
 	if s.kind == "cvc5" {
 		s.send("(reset)")
 		s.send("(set-logic QF_BV)")
@@ -154,6 +182,10 @@ func (s *Solver) readLine() string {
 // terms is satisfiable. If wantModel != nil and the answer is sat, the model
 // values of the given symbols are returned.
 func (s *Solver) check(extra []*Term, wantModel map[string]int) (string, map[string]uint64) {
+	return s.checkX(extra, wantModel, false)
+}
+
+func (s *Solver) checkX(extra []*Term, wantModel map[string]int, cross bool) (string, map[string]uint64) {
 	t0 := time.Now()
 	xs := make([]string, len(extra))
 	for i, e := range extra {
@@ -165,6 +197,9 @@ func (s *Solver) check(extra []*Term, wantModel map[string]int) (string, map[str
 	}
 	s.send("(check-sat)")
 	res := s.readLine()
+	if cross {
+		s.crossCheck(res)
+	}
 	var model map[string]uint64
 	switch res {
 	case "sat":
